@@ -89,6 +89,7 @@ def generate(rng, tier, focus):
         ridx = rng.randrange(0, 3)
         if nested:
             s1 = [s1[0]] * len(s1)      # nested subscriptions interleave their attempts on the second source: make them indistinguishable
+            s0 = [s0[0]] * len(s0)      # ... and on the first one too: start_with / concat subscribe their source after the callback in which the nested subscriber arrives
             acts = [sub(0, ["ref", 0], (ridx, ["sub", 1, ["ref", 0]]))]
             nsub = 2
         else:
